@@ -59,3 +59,6 @@ Definition same_layout_script (X0s : list (list zstate)) :=
   map (fun X => (X, ([X; X; X; X], [X; X; X; X]))) X0s.
 Definition check_events (it : iterator) (nmodels : nat) (X0s : list (list zstate)) :=
   exec_log Z zstate (repeat dc nmodels) [] (run_events zstate it (same_layout_script X0s)).
+
+(* hook slots in force after a history of setFunctions calls *)
+Definition check_hooks (calls : list hooks) := hooks_after calls.
